@@ -18,6 +18,9 @@ CHECKS = {
  "C04": dict(engine="treemc", cat="model_checking", sec="5/C04",
    text="Explicit-state search (k=2 quick, 3 thorough, all 8 configurations, including empty non-nil maps / ordered maps / leaf-lists): every state is deep-copied and checked for Model equality, for shared mutable memory by an exhaustive pointer-graph walk (pointees, maps, slice backing arrays reachable from both objects), and by overwriting everything reachable from the copy (then from the original) and comparing the other side with a pristine twin. MergeStructs gets the same walk against both inputs on all ordered pairs of k<=1 states x 4 option sets.",
    technique="explicit-state BFS over tree-building sequences; aliasing decided by pointer-graph intersection plus in-place mutation against a twin", note=TREE_NOTE),
+ "C10": dict(engine="treemc", cat="model_checking", sec="5/C10",
+   text="Transition oracle: from every explicit-state search state (k<=1 over the full alphabet in all 8 configurations, k<=2 focused in two of them; thorough k<=2 full) every leaf / leaf-list atom (every leaf type and domain value, every list key type, present and absent entries) is written with SetNode(InitMissingElements) as scalar TypedValue and as JSON_IETF on a fresh real tree. On success the whole observed Model must equal the reference transition (the builder applied to the same state: the leaf plus key leaves of entries created along the path, nothing else) and GetNode must return exactly one node holding the value; a failed set must leave the tree unchanged. Histories of 3 successive sets from the empty root are compared step by step.",
+   technique="explicit-state transition exploration (state x set operation) on the real implementation against the reference builder, plus short set histories", note=TREE_NOTE),
  "C12": dict(engine="treemc", cat="model_checking", sec="5/C12",
    text="Transition oracle on explicit-state search states (k<=1 full alphabet, k<=2 focused alphabet; thorough k<=3/full): DeleteNode is executed on a fresh real tree for every schema node path instantiated with domain keys (containers, presence containers, whole lists, partial keys, present and absent list entries, ordered-list entries, leaves, leaf-lists, key leaves) and compared with reference deletion on the path-to-value Model: data below the path gone, every leaf / entry / presence container outside unchanged, entries and presence containers on the way pruned only when empty, GetNode finds nothing, second call is a no-op.",
    technique="explicit-state transition exploration (state x delete-path) on the real implementation against a reference deletion on the model", note=TREE_NOTE),
